@@ -122,16 +122,26 @@ def references(ctx, report):
     ok, how = region_id_source(gp)
     report.check(bool(ok), "R-DOMINATES", gp, "a region id is taken from the region table or is the default region id",
                  {"region_id_is": how}, "3")
+    by = "R-DOC-REFS on the folded DFXP documents of the three writers under their options (every region= resolves to exactly one " \
+         "definition, every region defined is referenced, ids unique)"
+    report.structural_section("default region (shape)", by, default_region_shape, ctx, report)
+    report.structural_section("region table (shape)", by, region_table_shape, ctx, report)
+
+
+def default_region_shape(ctx, report):
     cd = ctx.index.get_function(DFXP, "RegionCreator.create_document_regions")
     report.covered(cd)
     calls = [c for c in walk_no_nested(cd.node) if isinstance(c, ast.Call) and (call_name(c) or "").endswith("_create_unique_regions")]
     ok = len(calls) == 2 and src(calls[0].args[0]) == "[DFXP_DEFAULT_REGION]" and "DFXP_DEFAULT_REGION_ID" in src(calls[0])
     upd = [c for c in walk_no_nested(cd.node) if isinstance(c, ast.Call) and src(c) == "self._region_map.update(default_region_map)"]
-    report.check(ok and len(upd) == 1, "R-MUSTCALL", cd, "the default region is always created and registered", None, "3")
+    report.recognise(ok and len(upd) == 1, "R-MUSTCALL", cd, "the default region is always created and registered", None, "3")
+
+
+def region_table_shape(ctx, report):
     cur = ctx.index.get_function(DFXP, "RegionCreator._create_unique_regions")
     t = src(cur.node)
     ok = "new_region['xml:id'] = new_id" in t and "region_map[region_spec] = new_id" in t and "layout_section.append(new_region)" in t
-    report.check(ok, "R-FIELD-ROUTING", cur, "the id stored in the region table is the id of the region element appended", None, "3")
+    report.recognise(ok, "R-FIELD-ROUTING", cur, "the id stored in the region table is the id of the region element appended", None, "3")
 
 
 def regions(ctx, report):
@@ -141,8 +151,9 @@ def regions(ctx, report):
     bad = [PR.flat(ev) for ev, end in paths if end == "return" and "MARK" not in PR.flat(ev)]
     report.check(not bad and paths, "R-MUSTCALL", gp, "every positioning query marks the returned region as used",
                  {"paths": len(paths), "unmarked": bad[:2]}, "4")
-    mk = [c for c in walk_no_nested(gp.node) if isinstance(c, ast.Call) and (call_name(c) or "").endswith("_assigned_region_ids.add")]
-    report.check(len(mk) == 1 and src(mk[0].args[0]) == "region_id", "R-FIELD-ROUTING", gp, "the id marked is the id returned", None, "4")
+    by = "R-DOC-REFS on the folded DFXP documents of the three writers under their options (every region defined is referenced, every " \
+         "reference resolves)"
+    report.structural_section("marked id (shape)", by, marked_id_shape, ctx, report, gp)
     wr = ctx.index.get_function(DFXP, "DFXPWriter.write")
     cl = PR.call_classifier({"create_document_regions": "CREATE", "_assign_positioning_data": "QUERY", "_recreate_p_tag": "QUERY",
                              "cleanup_regions": "CLEANUP", "prettify": "SERIALISE"})
@@ -177,10 +188,18 @@ def regions(ctx, report):
                 live = isinstance(n.value, ast.Attribute) and n.value.attr in ("children", "contents", "descendants")
     report.check(not live, "R-ITER-MUTATE", (cu, loops[0]), "regions are removed while iterating a materialised list",
                  {"iterates": resolved, "why": "extracting a node while walking the live child iterator skips its next sibling"}, "4")
-    t = [n for n in walk_no_nested(loops[0]) if isinstance(n, ast.If)]
+    report.structural_section("cleanup guard (shape)", by, cleanup_guard_shape, ctx, report, cu, loops[0])
+
+
+def marked_id_shape(ctx, report, gp):
+    mk = [c for c in walk_no_nested(gp.node) if isinstance(c, ast.Call) and (call_name(c) or "").endswith("_assigned_region_ids.add")]
+    report.recognise(len(mk) == 1 and src(mk[0].args[0]) == "region_id", "R-FIELD-ROUTING", gp, "the id marked is the id returned", None, "4")
+
+
+def cleanup_guard_shape(ctx, report, cu, loop):
+    t = [n for n in walk_no_nested(loop) if isinstance(n, ast.If)]
     ok = len(t) == 1 and src(t[0].test) == "region.attrs.get('xml:id') not in self._assigned_region_ids"
-    report.check(ok, "R-GUARD", cu, "exactly the regions that were never assigned are removed",
-                 [src(x.test) for x in t], "4")
+    report.recognise(ok, "R-GUARD", cu, "exactly the regions that were never assigned are removed", [src(x.test) for x in t], "4")
 
 
 def structure(ctx, report):
